@@ -251,7 +251,11 @@ def gen_plain0(rng, fn):
         return {"token_url": rng.choice(["http://t/a", "http://t/", "http://t/ab", "t"]), "client_id": rng.choice(WORDS),
                 "client_secret": rng.choice(WORDS), "scopes": [rng.choice(WORDS[:9]) for _ in range(rng.choice([0, 1, 2, 3]))]}
     if fn == "jwtSigner":
-        return {"kid": rng.choice(WORDS + ["kE", "kES256"]), "iss": rng.choice(WORDS + ["heimdall", "ES256b"])}
+        c = {"kid": rng.choice(WORDS + ["kE", "kES256"]), "iss": rng.choice(WORDS + ["heimdall", "ES256b"])}
+        if rng.random() < 0.5:
+            # the key store changes while the signer lives (the file watcher calls OnChanged), see RELOADS
+            c["reloads"] = [rng.choice(RELOADS) for _ in range(rng.choice([1, 2, 3]))]
+        return c
     if fn == "subject":
         return gen_subject(rng)
     if fn == "template":
@@ -291,6 +295,10 @@ def plain_env(fn, cfg, obs=None, srv=SRV):
     raise ValueError(fn)
 
 
+# changes of a watched key store delivered to the living signer: another key under the same key id, the file rewritten
+# with the key in force, the key in force before the last change (roll-back; without an earlier key: "same")
+RELOADS = ["new", "same", "back"]
+
 PLAIN = ["endpoint", "apiKey", "basicAuth", "httpMessageSignatures", "clientCredentialsHash", "clientCredentialsKey",
          "jwtSigner", "subject", "template", "httpCache"]
 MECHS = ["genericAuthenticator", "introspection", "jwtAuthenticator", "remoteAuthorizer", "genericContextualizer",
@@ -312,6 +320,15 @@ def mutate_plain(rng, fn, cfg):
     """a configuration differing from cfg in what the key function has to tell apart; returns (cfg2, description) or None"""
     c = copy.deepcopy(cfg)
     r = rng.random()
+    if fn == "jwtSigner" and r < 0.45:
+        # the living signer is told about a changed key store once more
+        more = rng.choice([["new"], ["new"], ["same"], ["new", "back"], ["new", "same"], ["same", "new"]])
+        if "new" in (c.get("reloads") or []):
+            more = ["new"]      # the keys made on the way are random: only "yet another key" is comparable
+        c["reloads"] = list(c.get("reloads") or []) + more
+        if "new" in more and more[-1] != "back":
+            return c, "key store reloaded with another key under the same key id (" + "+".join(more) + ")"
+        return c, "key store reloaded without a change of the key in force (" + "+".join(more) + ")", "same"
     if fn in ADJ and r < 0.45:
         (pa,), (pb,) = rng.choice(ADJ[fn])
         a, b = c[pa], c[pb]
@@ -743,8 +760,13 @@ def gen_history(rng, kind, nsteps=None):
         s.setdefault("_mut", "repeat" if steps and r < 0.35 else "variant" if steps and r < 0.7 else "pool")
         s["override"] = rng.randrange(len(m["overrides"]) + 1) if rng.random() < 0.7 else s.get("override", 0)
         s.pop("rotate", None)
-        if kind == "jwtFinalizer" and steps and rng.random() < 0.12:
-            s["rotate"] = True      # the key store is reloaded with another key under the same key id
+        s.pop("reload", None)
+        if kind == "jwtFinalizer" and steps:
+            r = rng.random()
+            if r < 0.1:
+                s["rotate"] = True      # another key under the same key id, the mechanism is created anew
+            elif r < 0.4:
+                s["reload"] = rng.choice(["new"] + RELOADS)   # the key store changes, the LIVING signer is told (OnChanged)
         steps.append(s)
     return m, steps
 
@@ -816,9 +838,26 @@ def mutate_step(rng, s, kind, names, cookies):
     return s
 
 
+def key_epochs(steps):
+    """which key the key store of the jwt finalizer holds at every step (numbered in order of creation): `rotate` and
+    `reload: new` put a new key there, `reload: back` the one in force before the last change, `reload: same` none"""
+    cur, prev, nxt, out = 0, None, 1, []
+    for s in steps:
+        if s.get("rotate"):
+            prev, cur, nxt = cur, nxt, nxt + 1
+        how = s.get("reload")
+        if how == "new":
+            prev, cur, nxt = cur, nxt, nxt + 1
+        elif how == "back" and prev is not None:
+            prev, cur = cur, prev
+        out.append(cur)
+    return out
+
+
 def harness_steps(steps):
     return [dict({"headers": s["headers"], "cookies": s["cookies"], "subject": s["subject"], "outputs": s.get("outputs", {}),
-                  "override": s.get("override", 0)}, **({"rotate": True} if s.get("rotate") else {})) for s in steps]
+                  "override": s.get("override", 0)}, **({"rotate": True} if s.get("rotate") else {}),
+                 **({"reload": s["reload"]} if s.get("reload") else {})) for s in steps]
 
 
 def run_case(m, steps, trace=False):
